@@ -27,7 +27,7 @@ def _is_id_cont(c):
     return c == '_' or c.isalnum()
 
 
-def lex(src):
+def lex(src, strict=True):
     """Return (sig, trivia): significant tokens (with bracket mates) and list of comment tokens."""
     i, n = 0, len(src)
     sig, trivia = [], []
@@ -139,11 +139,13 @@ def lex(src):
             stack.append(idx)
         elif t.text in ')]}':
             if not stack or sig[stack[-1]].text != pairs[t.text]:
+                if not strict:
+                    continue
                 raise LexError(f'unbalanced bracket at {t.start}')
             o = stack.pop()
             sig[o].mate = idx
             t.mate = o
-    if stack:
+    if stack and strict:
         raise LexError('unclosed bracket')
     return sig, trivia
 
